@@ -85,9 +85,9 @@ def gen_text(rng, keys, kinds, nops, decl_all):
             f = rng.randrange(2)
             items.append(("f", f, rng.randrange(3)))
         items.extend(g)
-    if rng.random() < 0.1:      # a late declaration (non canonical text)
+    if rng.random() < 0.1:      # a late (repeated) declaration: non canonical text
         k = rng.choice(keys)
-        if kinds[k]:
+        if kinds[k] and k in declared:
             items.insert(rng.randrange(len(items) + 1), ("d", k, rng.choice(kinds[k])))
     return items
 
